@@ -131,7 +131,10 @@ def run_harness(crate, h, log_dir):
     full = crate.get("harness_prefix", "kani_proofs::") + name
     cmd = ["cargo", "kani"] + KANI_FLAGS + ["--harness", full, "--exact"] + crate.get("cargo_args", []) + h.get("args", [])
     rc, out, secs, to = run(cmd, cwd=crate_cwd(crate), env=env_for(crate),
-                            timeout=h.get("timeout", 600), mem_gb=h.get("mem_gb", 12))
+                            timeout=h.get("timeout", 600),
+                            # address-space cap: CBMC/SAT solvers reserve far more virtual memory than they touch;
+                            # the driver's memory gate accounts mem_gb of resident memory per harness
+                            mem_gb=h.get("mem_gb", 12) * 2.5)
     log = os.path.join(log_dir, "%s.%s.log" % (crate["unit"], name))
     write(log, out)
     parsed = parse_output(out)
